@@ -95,6 +95,7 @@ inductive Obs where
   | dec (coeff : Int) (scale : Nat)
   | null
   | errRange
+  | errOther          -- any other error (`err:1105`)
   deriving DecidableEq, Repr, Inhabited
 
 /-- The property's acceptance relation: the exact value, or an out-of-range error when the exact
@@ -134,6 +135,12 @@ instance (resOk : Int → Bool) (impl exact : Obs) : Decidable (acceptable resOk
         · exact e
         · cases hw)
   | errRange => exact decidable_of_iff (impl = .errRange) (by
+      constructor
+      · intro e; exact Or.inl e
+      · rintro (e | ⟨_, w, hw, _⟩)
+        · exact e
+        · cases hw)
+  | errOther => exact decidable_of_iff (impl = .errOther) (by
       constructor
       · intro e; exact Or.inl e
       · rintro (e | ⟨_, w, hw, _⟩)
@@ -355,5 +362,114 @@ instance (t v) : Decidable (neg_unsigned_wraps t v) := by
   unfold neg_unsigned_wraps; cases t <;> infer_instance
 instance (t v) : Decidable (neg_mediumint_min_clamped t v) := by
   unfold neg_mediumint_min_clamped; infer_instance
+
+
+/-! ## Decimal operands (`*apd.Decimal`: coefficient and scale; `apd` arithmetic is a parameter of
+the model and is taken as exact — `DecimalCtx` has precision 0 for `Add/Sub/Mul`)
+
+Whenever one operand is a DECIMAL, `Arithmetic`, `IntDiv`, `Mod` and `Div` convert both operands with
+`convertToDecimalValue` (exact for integers, no clamping) and work on decimals. -/
+
+structure Dec where
+  coeff : Int
+  scale : Nat
+  deriving DecidableEq, Repr, Inhabited
+
+def Dec.ofInt (v : Int) : Dec := { coeff := v, scale := 0 }
+
+/-- coefficient of `a` re-expressed at scale `s ≥ a.scale` -/
+def Dec.at (a : Dec) (s : Nat) : Int := a.coeff * 10 ^ (s - a.scale)
+
+/-- `apd` `Add/Sub/Mul`: exponent `min` (scale `max`) for `+ -`, sum of the scales for `*`. -/
+def implDecArith (op : AOp) (a b : Dec) : Obs :=
+  match op with
+  | .add => let s := max a.scale b.scale; .dec (a.at s + b.at s) s
+  | .sub => let s := max a.scale b.scale; .dec (a.at s - b.at s) s
+  | .mul => .dec (a.coeff * b.coeff) (a.scale + b.scale)
+
+/-- `apd.NumDigits` of a coefficient (`0` has one digit). -/
+def numDigits (n : Nat) : Nat := if n < 10 then 1 else numDigits (n / 10) + 1
+decreasing_by omega
+
+/-- `Mod` on decimals: `DecimalMod` calls `apd.Rem` with precision = the larger digit count of the two
+coefficients; `Rem` fails (`DivisionImpossible`) when the integer quotient has more digits than that. -/
+def implDecMod (a b : Dec) : Obs :=
+  if b.coeff = 0 then .null
+  else
+    let s := max a.scale b.scale
+    let q := (a.at s).natAbs / (b.at s).natAbs
+    if numDigits q > max (numDigits a.coeff.natAbs) (numDigits b.coeff.natAbs) then .errOther
+    else .dec (Int.tmod (a.at s) (b.at s)) s
+
+/-- Spec: remainder of the truncating division at the common scale. -/
+def exactDecMod (a b : Dec) : Obs :=
+  if b.coeff = 0 then .null
+  else let s := max a.scale b.scale; .dec (Int.tmod (a.at s) (b.at s)) s
+
+/-- `%` with a DECIMAL operand whose integer quotient has more digits than both coefficients:
+`apd.Rem` reports "division impossible" and the statement fails. -/
+def mod_quotient_exceeds_precision (a b : Dec) : Prop :=
+  b.coeff ≠ 0 ∧
+    numDigits ((a.at (max a.scale b.scale)).natAbs / (b.at (max a.scale b.scale)).natAbs)
+      > max (numDigits a.coeff.natAbs) (numDigits b.coeff.natAbs)
+
+instance (a b) : Decidable (mod_quotient_exceeds_precision a b) := by
+  unfold mod_quotient_exceeds_precision; infer_instance
+
+/-- `IntDiv` on decimals: `DecimalDiv(l, r, 0, truncate)` then `Int64()`; the declared type is
+`Uint64` when an integer operand is unsigned (`resUnsigned`), and the `int64` is rendered through it. -/
+def implDecIntDiv (resUnsigned : Bool) (a b : Dec) : Obs :=
+  if b.coeff = 0 then .null
+  else
+    let s := max a.scale b.scale
+    let q := Int.tdiv (a.at s) (b.at s)
+    if q < minI64 ∨ q > maxI64 then .errRange
+    else .int (if resUnsigned ∧ q < 0 then q + 2 ^ 64 else q)
+
+def exactDecIntDiv (a b : Dec) : Obs :=
+  if b.coeff = 0 then .null else let s := max a.scale b.scale; .int (Int.tdiv (a.at s) (b.at s))
+
+def decIntDivResOk (resUnsigned : Bool) (v : Int) : Bool :=
+  if resUnsigned then decide (inU64 v) else decide (inI64 v)
+
+/-- final scale of an outermost `/`: left scale + `div_precision_increment`, capped at 30 -/
+def divFinalScale (ls : Nat) : Nat := min 30 (ls + divPrecInc)
+
+/-- `Div.Eval` on decimals: quotient truncated at the internal scale `S`, then `DecimalRound`
+(half away from zero) to the final scale `f` — which does nothing when `S = f`. -/
+def implDecDiv (a b : Dec) : Obs :=
+  if b.coeff = 0 then .null
+  else
+    let S := divInternalScale a.scale b.scale
+    let f := divFinalScale a.scale
+    -- |a| / |b| * 10^S = |ca| * 10^(S + sb) / (|cb| * 10^sa)
+    let t := a.coeff.natAbs * 10 ^ (S + b.scale) / (b.coeff.natAbs * 10 ^ a.scale)
+    let r := if S ≤ f then t * 10 ^ (f - S) else (t + 5 * 10 ^ (S - f - 1)) / 10 ^ (S - f)
+    .dec (signed (quoNeg a.coeff b.coeff) r) f
+
+/-- Spec: the exact quotient rounded half away from zero to the final scale. -/
+def exactDecDiv (a b : Dec) : Obs :=
+  if b.coeff = 0 then .null
+  else
+    let f := divFinalScale a.scale
+    let n := a.coeff.natAbs * 10 ^ (f + b.scale)
+    let d := b.coeff.natAbs * 10 ^ a.scale
+    .dec (signed (quoNeg a.coeff b.coeff) ((2 * n + d) / (2 * d))) f
+
+/-- `/` whose internal scale equals the final scale (`rs = 0` and `ls + 4` a multiple of 9, i.e.
+left scale 5, 14 or 23): the truncated quotient is returned without rounding. -/
+def div_internal_scale_not_above_final (a b : Dec) : Prop :=
+  divInternalScale a.scale b.scale ≤ divFinalScale a.scale
+
+/-- `DIV` declared BIGINT UNSIGNED (an integer operand is unsigned) with a negative quotient. -/
+def intdiv_dec_negative_as_unsigned (resUnsigned : Bool) (a b : Dec) : Prop :=
+  resUnsigned = true ∧ b.coeff ≠ 0 ∧
+    Int.tdiv (a.at (max a.scale b.scale)) (b.at (max a.scale b.scale)) < 0 ∧
+    minI64 ≤ Int.tdiv (a.at (max a.scale b.scale)) (b.at (max a.scale b.scale))
+
+instance (a b) : Decidable (div_internal_scale_not_above_final a b) := by
+  unfold div_internal_scale_not_above_final; infer_instance
+instance (u a b) : Decidable (intdiv_dec_negative_as_unsigned u a b) := by
+  unfold intdiv_dec_negative_as_unsigned; infer_instance
 
 end Gms.Num
